@@ -30,7 +30,7 @@ MaxLen == NPre + C.L
 
 (* handles are numbered in the order of the stimuli that create them *)
 RECURSIVE NHandles(_), Consumed(_, _), Did(_, _)
-NHandles(h) == IF h = <<>> THEN 0 ELSE (IF Head(h).s.k \in {"sub", "connect", "mnew"} THEN 1 ELSE 0) + NHandles(Tail(h))
+NHandles(h) == IF h = <<>> THEN 0 ELSE (IF Head(h).s.k \in {"sub", "connect", "mnew", "tsched"} THEN 1 ELSE 0) + NHandles(Tail(h))
 Consumed(h, a) == IF h = <<>> THEN FALSE
                   ELSE (Head(h).s.k = "unsub" /\ Head(h).s.a = a) \/ (Head(h).s.k = "mappend" /\ Head(h).s.b = a) \/ Consumed(Tail(h), a)
 Did(h, k) == IF h = <<>> THEN FALSE ELSE Head(h).s.k = k \/ Did(Tail(h), k)
